@@ -77,6 +77,20 @@ func (sr *liveSwitchReader) Read(p []byte) (n int, err error) {
 	return r.Read(p)
 }
 
+// stop is called when the connection's reader loop is done. It drops a
+// close-notifier pipe that was never started and closes the read side of a
+// started one, so that the copy routine cannot stay blocked writing into a
+// pipe nobody reads from anymore.
+func (sr *liveSwitchReader) stop() {
+	sr.Lock()
+	sr.pr = nil
+	sr.pipeCopyF = nil
+	if pr, ok := sr.r.(*io.PipeReader); ok {
+		pr.Close()
+	}
+	sr.Unlock()
+}
+
 // conn represents the server side of a diameter connection.
 type conn struct {
 	server   *Server              // the Server on which the connection arrived
@@ -96,6 +110,11 @@ func (c *conn) closeNotify() <-chan struct{} {
 	defer c.mu.Unlock()
 	if c.closeNotifyc == nil {
 		c.closeNotifyc = make(chan struct{})
+		if c.clientGone {
+			// The connection has already terminated.
+			close(c.closeNotifyc)
+			return c.closeNotifyc
+		}
 
 		if msc, isMulti := c.rwc.(MultistreamConn); isMulti {
 			// MultistreamConn provides it's own error handler
@@ -130,9 +149,11 @@ func (c *conn) closeNotify() <-chan struct{} {
 func (c *conn) notifyClientGone() {
 	c.mu.Lock()
 	defer c.mu.Unlock()
-	if c.closeNotifyc != nil && !c.clientGone {
-		close(c.closeNotifyc) // unblock readers
+	if !c.clientGone {
 		c.clientGone = true
+		if c.closeNotifyc != nil {
+			close(c.closeNotifyc) // unblock readers
+		}
 	}
 }
 
@@ -184,6 +205,9 @@ func (c *conn) serve() {
 				c.rwc.RemoteAddr().String(), err, buf)
 		}
 		c.rwc.Close()
+		// The connection is gone, whatever made the reader loop stop.
+		c.sr.stop()
+		c.notifyClientGone()
 	}()
 	if tlsConn, ok := c.rwc.(*tls.Conn); ok {
 		if err := tlsConn.Handshake(); err != nil {
